@@ -64,6 +64,24 @@ Theorem C17_tick_complete : forall c t s x, In x (timers (fst (step c s (ETick t
 Proof. exact tick_complete. Qed.
 Print Assumptions C17_tick_complete.
 
+(* ---- every timeout that drops: close handshake, server TCP drop, auto-ping timeout ----
+   a pending call of one of these kinds with fire time <= B is run by the first Tick that reaches B, and whatever
+   else that Tick runs, the connection is CLOSED afterwards (the silent peer is dropped no later than B).
+   Such a call is pending unless the qualifying peer event cancelled it: the code cancels the close-handshake call only
+   in onCloseFrame (peer's reply), the ping-timeout call only on a matching pong / qualifying traffic, and all of
+   them in _connectionLost. *)
+Theorem C17_timeout_fires : forall c k B t s, drop_kind k -> pendLe k B (timers s) -> B <= t ->
+  st (fst (step c s (ETick t))) = CLOSED.
+Proof. exact timeout_fires. Qed.
+Print Assumptions C17_timeout_fires.
+
+(* arming through the batched timer at time [now] with delay d (sendCloseFrame: closeHandshakeTimeout, _sendAutoPing:
+   autoPingTimeout / autoPingInterval) yields a pending call with fire time <= now + d, the nominal deadline *)
+Theorem C17_armed_by_deadline : forall c evs k d,
+  let s := fst (run c evs) in pendLe k (now s + d) (timers (fst (arm_batched k d s))).
+Proof. intros. apply arm_batched_pending. apply ti1_run. Qed.
+Print Assumptions C17_armed_by_deadline.
+
 (* ---- closing handshake and server TCP drop: the silent peer ----
    In every reachable CLOSING state a close-handshake call or (client) a server-drop call is pending and no call is
    overdue; therefore a peer that neither answers our close frame nor (as a server) drops TCP is dropped no later
@@ -151,3 +169,30 @@ Example C17_witness_server_drop_timeout :
   [(0, WHttp); (0, CbOpen); (0, IsOpen); (0, WClose OApi (Some 1000) None); (1375, IsClosed); (1375, Abort);
    (1375, CbClose false (Some 1006) None RDropTO)].
 Proof. vm_compute. reflexivity. Qed.
+
+Example C17_witness_drop_kinds : drop_kind TCloseHS /\ drop_kind TServerDrop /\ drop_kind TAutoPingTO.
+Proof. unfold drop_kind. auto. Qed.
+
+(* non-vacuity of C17_timeout_fires: a ping is outstanding, its timeout call pending with fire time 3000 *)
+Example C17_witness_ping_timeout_pending :
+  let c := mkCfg Server true false 2000 1000 0 1000 2000 12 true 375 in
+  let s := fst (run c [EHandshake; ETick 1000]) in
+  st s = OPEN /\ pingPending s = Some 1 /\ map te_time (timers s) = [3000] /\
+  st (fst (step c s (ETick 3000))) = CLOSED /\ ncr (fst (step c s (ETick 3000))) = RPingTO.
+Proof. vm_compute. auto 10. Qed.
+
+(* the responsive peer: a matching pong one second before the deadline cancels it; the next ping goes out one
+   interval later; a data frame does the same when autoPingRestartOnAnyTraffic is set *)
+Example C17_witness_pong_in_time :
+  let c := mkCfg Server true false 2000 1000 0 1000 2000 12 true 375 in
+  let s := fst (run c [EHandshake; ETick 1000; ETick 2000; EPeerPong true]) in
+  st s = OPEN /\ pingPending s = None /\ map te_time (timers s) = [3000] /\
+  snd (step c s (ETick 3000)) = [(3000, WPing (Some 2))].
+Proof. vm_compute. auto 10. Qed.
+
+Example C17_witness_restart_on_traffic :
+  let c := mkCfg Server true false 2000 1000 0 1000 2000 12 true 375 in
+  let on := fst (run c [EHandshake; ETick 1000; ETick 1500; EPeerData]) in
+  let off := fst (run (mkCfg Server true false 2000 1000 0 1000 2000 12 false 375) [EHandshake; ETick 1000; ETick 1500; EPeerData]) in
+  (pingPending on = None /\ map te_time (timers on) = [2000]) /\ (pingPending off = Some 1 /\ map te_time (timers off) = [3000]).
+Proof. vm_compute. auto 10. Qed.
